@@ -106,6 +106,16 @@ CHECKS = {
              note=BASE_NOTE + "Scope of the theorem: histories on which no trigger of the four open findings fires (friendlyFrom, monotone clock, entries <= MAX_ALLOC), StrictlyAtOnce, "
              "sequential callers, clean shutdown. The driver stops comparing AEngR at the first trigger; from there on only Eng (which reproduces the defects) is compared.",
              tech="Lean 4 proof (refinement of the FIFO spec extended with restart events; induction over histories) + differential correspondence across restarts + oracle", ref="§6 C06"),
+ "C04": dict(text="Partial. Theorems (entry-level model, every reachable state / every history): C04_rejected_append_keeps_topic, C04_rejected_batch_keeps_topic (a rejected "
+             "append/batch leaves log, consumed index, count and invariant untouched), C04_rejected_invisible_in_histories (every history is a FIFO history of its successful "
+             "appends alone), C04_batch_contiguous. Storage-level model with injected I/O faults: C04_failed_batch_in_block (a failed batch that stays inside the writer's "
+             "block leaves writer, chains, index, counts, trackers as they were). FALSE for batches that rotated a block while planning: "
+             "C04_counterexample_rollbackKeepsNewBlock (open finding, replayed on the real engine on every run). Correspondence: ~600 programs per quick run with injected "
+             "failures of entry writes / io_uring completions / submission at every position of 1-6 entry batches, all rejection causes, restarts; independent oracle.",
+             note=BASE_NOTE + "Faults are injected by hook H1 (cfg walrus_verif): the mmap path fails before the write, the io_uring path overrides the completion result after the write. "
+             "The 'after a restart' clause is decided by correspondence/oracle (open findings emptyBlockAllocated, scanStopsAtEmptyBlock); > MAX_ALLOC entries: sealThenAllocFail. "
+             "Concurrent observers of a batch in flight are C05. After rollbackKeepsNewBlock fired, implementation/model divergences (panic in `limit - offset`) are tolerated and counted.",
+             tech="Lean 4 proof (corollaries of the FIFO refinement; unfolding of the batch write path under an injected fault) + fault-injection correspondence + oracle", ref="§6 C04"),
 }
 NOT_APPLICABLE = {
  "C19": "statement about the vendored openraft core + QUIC transport + tokio runtime, none of which can be built or run offline here (tokio, quinn, rustls, futures absent from the registry); a free-standing Raft proof would be tied to nothing (DESIGN.md §6 C19)",
